@@ -43,6 +43,31 @@ func containerPool() []Val {
 	}
 }
 
+// sharedPool: values in which ONE container instance occurs at several positions (aliasing, never a
+// cycle): the package-level singletons px.EmptyArray / px.EmptyMap, a hash / an array under two
+// indexes or keys, as key and as value, at different depths, a diamond, shared instances inside a
+// shared instance.
+func sharedPool() []Val {
+	e, em := vEmptyArray, vEmptyMap
+	h := vHash(vStr("a"), vInt(1)).shared(1)
+	a := vArr(vInt(1), vStr("a")).shared(2)
+	f := vArr(vFloat(1.5), vInt(255)).shared(3)
+	inner := vArr(a).shared(4)
+	d := vArr(vInt(1)).shared(5)
+	m := vArr(d, d).shared(6)
+	hh := vHash(vStr("k"), h, vStr("l"), h).shared(7)
+	return []Val{
+		vArr(e, e), vArr(e, vArr(e), e), vHash(vStr("x"), e, vStr("y"), e), vArr(em, em), vHash(vStr("x"), em, vStr("y"), vArr(em)),
+		vArr(e, em, e, em), vHash(e, em),
+		vArr(h, h), vArr(h, vArr(h)), vArr(vArr(h), h, vInt(3)), vHash(vStr("x"), h, vStr("y"), h), vHash(h, h), vHash(vStr("x"), h, h, vInt(2)),
+		vArr(a, a, a), vHash(a, a), vArr(inner, inner), vArr(a, inner), vHash(vStr("p"), a, vStr("q"), vArr(a, vInt(7))),
+		vArr(f, vInt(-5), f), vHash(vInt(1), f, vInt(2), f),
+		vArr(m, m, d), vHash(vStr("m"), m, vStr("d"), d), vArr(d, m),
+		vArr(hh, hh), vHash(vStr("u"), hh, vStr("v"), h), vArr(h, hh, a, vHash(vStr("z"), a)),
+		vArr(vArr(vArr(h), vArr(h)), vHash(vStr("deep"), vArr(vHash(vStr("er"), h)))),
+	}
+}
+
 // ---- directive families ----
 
 func subsets(chars string) []string {
@@ -204,35 +229,126 @@ func randomScalar(r *lib.Rng) Val {
 	return vRe(res[r.Intn(len(res))])
 }
 
-func randomValue(r *lib.Rng, depth int) Val {
+// valGen generates nested values; with `share` set a finished container is now and then used again
+// at a later position (one instance at several positions: a DAG, never a cycle) and empty containers
+// are the package-level singletons.
+type valGen struct {
+	r     *lib.Rng
+	share bool
+	done  []Val
+	next  int
+}
+
+func height(v Val) int {
+	h := 0
+	for _, k := range v.Ks {
+		if x := height(k); x > h {
+			h = x
+		}
+	}
+	for _, e := range v.Es {
+		if x := height(e); x > h {
+			h = x
+		}
+	}
+	if v.isContainer() {
+		h++
+	}
+	return h
+}
+
+func (g *valGen) gen(depth int) Val {
+	r := g.r
 	if depth <= 0 || r.Chance(1, 2) {
 		return randomScalar(r)
 	}
+	if g.share && len(g.done) > 0 && r.Chance(1, 2) {
+		if c := g.done[r.Intn(len(g.done))]; height(c) <= depth {
+			return c
+		}
+	}
 	n := r.Intn(4)
-	if r.Bool() {
+	isArr := r.Bool()
+	if g.share && n == 0 && r.Bool() {
+		if isArr {
+			return vEmptyArray
+		}
+		return vEmptyMap
+	}
+	g.next++
+	id := g.next
+	var v Val
+	if isArr {
 		es := make([]Val, n)
 		for i := range es {
-			es[i] = randomValue(r, depth-1)
+			es[i] = g.gen(depth - 1)
 		}
-		return vArr(es...)
+		v = vArr(es...)
+	} else {
+		v = Val{K: "hash"}
+		seen := map[string]bool{}
+		for i := 0; i < n; i++ {
+			var k Val
+			if r.Chance(1, 6) {
+				k = g.gen(depth - 1)
+			} else {
+				k = randomScalar(r)
+			}
+			if k.K == "float" || seen[k.gallina()] {
+				continue // NaN keys and duplicate keys are not this property's subject
+			}
+			seen[k.gallina()] = true
+			v.Ks = append(v.Ks, k)
+			v.Es = append(v.Es, g.gen(depth-1))
+		}
 	}
-	h := Val{K: "hash"}
-	seen := map[string]bool{}
-	for i := 0; i < n; i++ {
-		var k Val
-		if r.Chance(1, 6) {
-			k = randomValue(r, depth-1)
-		} else {
-			k = randomScalar(r)
-		}
-		if k.K == "float" || seen[k.String()] {
-			continue // NaN keys and duplicate keys are not this property's subject
-		}
-		seen[k.String()] = true
-		h.Ks = append(h.Ks, k)
-		h.Es = append(h.Es, randomValue(r, depth-1))
+	if g.share {
+		v.ID = id
+		g.done = append(g.done, v)
 	}
-	return h
+	return v
+}
+
+// dropSingleIDs clears the identity of the instances that occur once (they are objects of their own).
+func dropSingleIDs(v Val) Val {
+	count := map[int]int{}
+	v.walk(func(x Val) {
+		if x.isContainer() && x.ID > 0 {
+			count[x.ID]++
+		}
+	})
+	var fix func(x Val) Val
+	fix = func(x Val) Val {
+		if x.isContainer() && x.ID > 0 && count[x.ID] < 2 {
+			x.ID = 0
+		}
+		if len(x.Ks) > 0 {
+			ks := make([]Val, len(x.Ks))
+			for i, k := range x.Ks {
+				ks[i] = fix(k)
+			}
+			x.Ks = ks
+		}
+		if len(x.Es) > 0 {
+			es := make([]Val, len(x.Es))
+			for i, e := range x.Es {
+				es[i] = fix(e)
+			}
+			x.Es = es
+		}
+		return x
+	}
+	return fix(v)
+}
+
+// randomValue: a random nested value; every second one is generated with aliasing.
+func randomValue(r *lib.Rng, depth int) Val {
+	g := &valGen{r: r, share: r.Chance(1, 2)}
+	v := g.gen(depth)
+	if g.share {
+		v = dropSingleIDs(v)
+	}
+	return v
 }
 
 // plausible letters per key type, so that random maps mostly format (errors are still frequent)
@@ -315,6 +431,10 @@ func (r *runner) runAll() {
 	thorough := r.cfg.Thorough()
 	scalars := scalarPool()
 	containers := containerPool()
+
+	// F0: histories - one context reused over a sequence of renderings (first, while the package-level
+	// format objects are untouched)
+	r.historyFamilies()
 
 	// F1: directive grammar x scalar pool (bounded-exhaustive); delimiters on a sub-pool
 	// quick tier: every value meets every third directive of the grammar (the residue moves with the
@@ -423,6 +543,76 @@ func (r *runner) runAll() {
 	}
 	for _, v := range scalars {
 		r.one(v, Spec{Kind: "default"}, "default", true)
+	}
+
+	// F3s: values with aliasing (one container instance at several positions) under every container
+	// format letter of Array and Hash x plain / alternate / delimiter / width, as a top-level directive
+	// and through the per-type map; all of them go to the model of the recursion guard (share_model)
+	shared := sharedPool()
+	contLetters := "ahspd"
+	flagsS := []string{"", "#", "(", "#|", "-"}
+	idx = 0
+	for _, v := range shared {
+		r.one(v, Spec{Kind: "default"}, "shared", true)
+		for _, fl := range flagsS {
+			for _, w := range []int{-1, 3, 30} {
+				for i := 0; i < len(contLetters); i++ {
+					ds := Directive{Flags: fl, Width: w, Prec: -1, Letter: contLetters[i]}.String()
+					idx++
+					if w < 0 || (idx+int(r.cfg.Seed))%3 == 0 {
+						r.one(v, sStr(ds), "shared", (idx+int(r.cfg.Seed))%17 == 0)
+					}
+					for j := 0; j < len(contLetters); j++ {
+						if !thorough && w >= 0 && (idx+j+int(r.cfg.Seed))%4 != 0 {
+							continue
+						}
+						// Array => letter i, Hash => letter j
+						da, dh := hx(ds), hx(Directive{Flags: fl, Width: w, Prec: -1, Letter: contLetters[j]}.String())
+						m := []MapEnt{{Key: "Array", Str: &da}, {Key: "Hash", Str: &dh}}
+						if (i+j)%2 == 1 {
+							sep := hx(";")
+							m[1] = MapEnt{Key: "Hash", Hash: &FmtHash{Format: dh, Sep: &sep}}
+						}
+						idx++
+						r.one(v, Spec{Kind: "map", Map: m}, "shared", (idx+int(r.cfg.Seed))%17 == 0)
+					}
+				}
+			}
+		}
+	}
+
+	// F3w: the numeric directives at the edge of the integer range - MinInt64, MaxInt64, floats whose
+	// magnitude is outside int64 (the conversion the language leaves open), NaN, infinities - x the
+	// radix and decimal letters x every set of the flags 0 # + space - x widths around the length of
+	// the unpadded text (where sign, prefix and zero padding share the width)
+	edge := []Val{vInt(math.MinInt64), vInt(math.MinInt64 + 1), vInt(math.MaxInt64), vInt(-1), vInt(0),
+		vFloat(-1.2686729980246931e+305), vFloat(1.2686729980246931e+305), vFloat(-9.3e18), vFloat(9.3e18), vFloat(-9223372036854775808.0),
+		vFloat(9223372036854775808.0), vFloat(1e19), vFloat(-1e19), vFloat(math.MaxFloat64), vFloat(-math.MaxFloat64), vFloat(math.Inf(1)),
+		vFloat(math.Inf(-1)), vFloat(math.NaN()), vFloat(-4.5e15), vFloat(-255.75)}
+	idx = 0
+	for _, v := range edge {
+		// keyed by Any for floats, so that NaN and the infinities meet the directive too (the default Float
+		// key type does not accept them)
+		key := v.kindName()
+		if v.K == "float" {
+			key = "Any"
+		}
+		for _, l := range "dxXobB" {
+			for _, fl := range subsets("0#+ -") {
+				natural := formatCase(v, kindSpec(key, Directive{Flags: fl, Width: -1, Prec: -1, Letter: byte(l)}.String()))
+				if natural.Err != "" {
+					continue
+				}
+				nl := runeLen(natural.Text)
+				for _, dw := range []int{-1, 0, 1, 2, 3, 4, 11} {
+					if nl+dw < 1 {
+						continue
+					}
+					idx++
+					r.one(v, kindSpec(key, Directive{Flags: fl, Width: nl + dw, Prec: -1, Letter: byte(l)}.String()), "edge-width", (idx+int(r.cfg.Seed))%71 == 0)
+				}
+			}
+		}
 	}
 
 	// F4: per-type format maps x random values
